@@ -2,8 +2,8 @@
 # tools/runall.sh [tier] [seed] [evidence-dir]  - run every registered check, one line per check
 TIER=${1:-quick}; export VERIF_SEED=${2:-0}
 [ -n "$3" ] && export VERIF_EVIDENCE_DIR="$3" VERIF_OUT_DIR="$3/out"
-cd /verif
+cd "$(dirname "$(readlink -f "$0")")/.."
 for p in C01 C02 C03 C04 C05 C06 C07 C08 C09 C10 C11 C12 C13 C14 C15 C16 C17 C18 C19 C20; do
-  ./check $p --tier $TIER > /tmp/runall_$p.log 2>&1; rc=$?
-  echo "$p rc=$rc $(grep -E '^\[C..\] (PASS|FAIL)' /tmp/runall_$p.log | tail -1) $(grep -c KNOWN-FINDING /tmp/runall_$p.log) known $(grep -E 'violation:|MACHINERY' /tmp/runall_$p.log | head -2 | cut -c1-200)"
+  ./check $p --tier $TIER > /tmp/runall_${TIER}_$p.log 2>&1; rc=$?
+  echo "$p rc=$rc $(grep -E '^\[C..\] (PASS|FAIL)' /tmp/runall_${TIER}_$p.log | tail -1) $(grep -c KNOWN-FINDING /tmp/runall_${TIER}_$p.log) known $(grep -E 'violation:|MACHINERY' /tmp/runall_${TIER}_$p.log | head -2 | cut -c1-200)"
 done
